@@ -23,17 +23,19 @@ structure Step where
   final : Nat → Bytes
 
 /-- chronological events and final counters of a run of conforming transactions. -/
-def runEvents (plan : Nat → Nat) (ms : Nat) : List Step → Prog → List Ev × Prog
+def runEvents (plan : Nat → Nat) (ms t : Nat) : List Step → Prog → List Ev × Prog
   | [], pr => ([], pr)
   | st :: rest, pr =>
     let bl := max pr.bufLen (max st.cmd.cmdLen st.cmd.maximumAckLen)
-    let r := runEvents plan ms rest ⟨(pr.id + 1) % 2 ^ 16, bl, pr.txn + 1⟩
-    (txnEvents bl (st.cmd.serialize pr.id) pr.id ms (st.final pr.id) (plan pr.txn) ++ r.1, r.2)
+    let r := runEvents plan ms t rest ⟨(pr.id + 1) % 2 ^ 16, bl, pr.txn + 1⟩
+    (txnEvents bl t (st.cmd.serialize pr.id) pr.id ms [] (st.final pr.id) (plan pr.txn) ++ r.1, r.2)
 
-theorem runEvents_append (plan : Nat → Nat) (ms : Nat) (xs ys : List Step) (pr : Prog) :
-    runEvents plan ms (xs ++ ys) pr =
-      ((runEvents plan ms xs pr).1 ++ (runEvents plan ms ys (runEvents plan ms xs pr).2).1,
-       (runEvents plan ms ys (runEvents plan ms xs pr).2).2) := by
+@[simp] theorem staleEvents_nil (bl t : Nat) : staleEvents bl t [] = [] := rfl
+
+theorem runEvents_append (plan : Nat → Nat) (ms t : Nat) (xs ys : List Step) (pr : Prog) :
+    runEvents plan ms t (xs ++ ys) pr =
+      ((runEvents plan ms t xs pr).1 ++ (runEvents plan ms t ys (runEvents plan ms t xs pr).2).1,
+       (runEvents plan ms t ys (runEvents plan ms t xs pr).2).2) := by
   induction xs generalizing pr with
   | nil => simp [runEvents]
   | cons x xs ih => simp [runEvents, ih]
@@ -46,14 +48,14 @@ def pktId (b : Bytes) : Nat := Spec.GenCP.uintAt b 10 2
 /-- `(isCommand, request id)` of every packet on the wire, in order. -/
 def wireIds : List Ev → List (Bool × Nat)
   | [] => []
-  | .send b _ :: r => (true, pktId b) :: wireIds r
-  | .recv _ (.ok b) :: r => (false, pktId b) :: wireIds r
+  | .send b _ _ :: r => (true, pktId b) :: wireIds r
+  | .recv _ _ (.ok b) :: r => (false, pktId b) :: wireIds r
   | _ :: r => wireIds r
 
 /-- the command packets sent, in order. -/
 def sentOf : List Ev → List Bytes
   | [] => []
-  | .send b _ :: r => b :: sentOf r
+  | .send b _ _ :: r => b :: sentOf r
   | _ :: r => sentOf r
 
 theorem wireIds_append (xs ys : List Ev) : wireIds (xs ++ ys) = wireIds xs ++ wireIds ys := by
@@ -61,10 +63,10 @@ theorem wireIds_append (xs ys : List Ev) : wireIds (xs ++ ys) = wireIds xs ++ wi
   | nil => rfl
   | cons e xs ih =>
     cases e with
-    | send b r => simp [wireIds, ih]
-    | recv bl res => cases res <;> simp [wireIds, ih]
+    | send b t r => simp [wireIds, ih]
+    | recv bl t res => cases res <;> simp [wireIds, ih]
     | sleep m => simp [wireIds, ih]
-    | ctl r e => simp [wireIds, ih]
+    | ctl r t e => simp [wireIds, ih]
 
 theorem sentOf_append (xs ys : List Ev) : sentOf (xs ++ ys) = sentOf xs ++ sentOf ys := by
   induction xs with
@@ -101,9 +103,9 @@ theorem pktId_serialize (c : Cmd.Cmd) (id : Nat) (hid : id < 2 ^ 16) :
   rw [C09.serialize_eq, C09.hdr_id]
   exact Nat.mod_eq_of_lt (by omega)
 
-theorem wireIds_recvEvents (bufLen id ms : Nat) (final : Bytes) (k : Nat) (hid : id < 2 ^ 16)
+theorem wireIds_recvEvents (bufLen t id ms : Nat) (final : Bytes) (k : Nat) (hid : id < 2 ^ 16)
     (hf : pktId final = id) :
-    wireIds (recvEvents bufLen id ms final k) = List.replicate (k + 1) (false, id) := by
+    wireIds (recvEvents bufLen t id ms final k) = List.replicate (k + 1) (false, id) := by
   induction k with
   | zero => simp [recvEvents, wireIds, hf]
   | succ j ih =>
@@ -111,10 +113,10 @@ theorem wireIds_recvEvents (bufLen id ms : Nat) (final : Bytes) (k : Nat) (hid :
     simp [List.replicate_succ]
 
 /-- **ids on the wire** of a run. -/
-theorem wireIds_runEvents (plan : Nat → Nat) (ms : Nat) (steps : List Step)
+theorem wireIds_runEvents (plan : Nat → Nat) (ms t : Nat) (steps : List Step)
     (hfin : ∀ st ∈ steps, ∀ id, id < 2 ^ 16 → pktId (st.final id) = id) :
     ∀ (pr : Prog), pr.id < 2 ^ 16 →
-      wireIds (runEvents plan ms steps pr).1 = idsFrom plan steps.length pr.id pr.txn := by
+      wireIds (runEvents plan ms t steps pr).1 = idsFrom plan steps.length pr.id pr.txn := by
   induction steps with
   | nil => intro pr _; rfl
   | cons st rest ih =>
@@ -122,28 +124,30 @@ theorem wireIds_runEvents (plan : Nat → Nat) (ms : Nat) (steps : List Step)
     have := ih (fun x hx => hfin x (List.mem_cons_of_mem _ hx))
       ⟨(pr.id + 1) % 2 ^ 16, max pr.bufLen (max st.cmd.cmdLen st.cmd.maximumAckLen), pr.txn + 1⟩
       (Nat.mod_lt _ (by omega))
-    simp only [runEvents, txnEvents, List.cons_append, wireIds, wireIds_append, this,
+    simp only [runEvents, txnEvents, staleEvents_nil, List.nil_append, List.cons_append, wireIds,
+      wireIds_append, this,
       pktId_serialize _ _ hid, List.length_cons, idsFrom,
-      wireIds_recvEvents _ _ _ _ _ hid (hfin st (List.mem_cons_self ..) pr.id hid)]
+      wireIds_recvEvents _ _ _ _ _ _ hid (hfin st (List.mem_cons_self ..) pr.id hid)]
 
-theorem sentOf_recvEvents (bufLen id ms : Nat) (final : Bytes) (k : Nat) :
-    sentOf (recvEvents bufLen id ms final k) = [] := by
+theorem sentOf_recvEvents (bufLen t id ms : Nat) (final : Bytes) (k : Nat) :
+    sentOf (recvEvents bufLen t id ms final k) = [] := by
   induction k with
   | zero => simp [recvEvents, sentOf]
   | succ j ih => simp [recvEvents, sentOf, ih]
 
 /-- **commands on the wire** of a run. -/
-theorem sentOf_runEvents (plan : Nat → Nat) (ms : Nat) (steps : List Step) (pr : Prog) :
-    sentOf (runEvents plan ms steps pr).1 = serializeFrom steps pr.id := by
+theorem sentOf_runEvents (plan : Nat → Nat) (ms t : Nat) (steps : List Step) (pr : Prog) :
+    sentOf (runEvents plan ms t steps pr).1 = serializeFrom steps pr.id := by
   induction steps generalizing pr with
   | nil => rfl
   | cons st rest ih =>
-    simp only [runEvents, txnEvents, List.cons_append, sentOf, sentOf_append, sentOf_recvEvents,
+    simp only [runEvents, txnEvents, staleEvents_nil, List.cons_append, sentOf, sentOf_append,
+      sentOf_recvEvents,
       List.nil_append, ih, serializeFrom]
 
 /-- final counters of a run. -/
-theorem runEvents_final (plan : Nat → Nat) (ms : Nat) (steps : List Step) (pr : Prog) :
-    (runEvents plan ms steps pr).2.id = (pr.id + steps.length) % 2 ^ 16 ∨ steps = [] := by
+theorem runEvents_final (plan : Nat → Nat) (ms t : Nat) (steps : List Step) (pr : Prog) :
+    (runEvents plan ms t steps pr).2.id = (pr.id + steps.length) % 2 ^ 16 ∨ steps = [] := by
   induction steps generalizing pr with
   | nil => right; rfl
   | cons st rest ih =>
@@ -154,29 +158,29 @@ theorem runEvents_final (plan : Nat → Nat) (ms : Nat) (steps : List Step) (pr 
     · rw [h]; simp only [List.length_cons]; omega
     · subst h; simp [runEvents]
 
-theorem runEvents_txn (plan : Nat → Nat) (ms : Nat) (steps : List Step) (pr : Prog) :
-    (runEvents plan ms steps pr).2.txn = pr.txn + steps.length := by
+theorem runEvents_txn (plan : Nat → Nat) (ms t : Nat) (steps : List Step) (pr : Prog) :
+    (runEvents plan ms t steps pr).2.txn = pr.txn + steps.length := by
   induction steps generalizing pr with
   | nil => rfl
   | cons st rest ih => simp only [runEvents, ih, List.length_cons]; omega
 
 /-- limits respected by one event -/
 def EvWithin (lim : Limits) (ackOk : Prop) : Ev → Prop
-  | .send b err => b.length ≤ lim.maxCmd ∧ err = none
-  | .recv bl (.ok pkt) => pkt.length ≤ bl ∧ (ackOk → pkt.length ≤ lim.maxAck)
-  | .recv _ (.error _) => False
+  | .send b _ err => b.length ≤ lim.maxCmd ∧ err = none
+  | .recv bl _ (.ok pkt) => pkt.length ≤ bl ∧ (ackOk → pkt.length ≤ lim.maxAck)
+  | .recv _ _ (.error _) => False
   | _ => True
 
 /-- **limits on the wire** of a run: every command fits `maxCmd`; every received packet fits
 the receive buffer, and fits `maxAck` (pending acks are 16 bytes, so for them `ackOk` must
 imply `16 ≤ maxAck` or that there are none). -/
-theorem within_runEvents (lim : Limits) (ackOk : Prop) (plan : Nat → Nat) (ms : Nat)
+theorem within_runEvents (lim : Limits) (ackOk : Prop) (plan : Nat → Nat) (ms t : Nat)
     (steps : List Step)
     (hcmd : ∀ st ∈ steps, ∀ id, (st.cmd.serialize id).length ≤ lim.maxCmd)
     (hfin : ∀ st ∈ steps, ∀ id, (st.final id).length ≤ st.cmd.maximumAckLen ∧
       (ackOk → (st.final id).length ≤ lim.maxAck))
     (hpend : ackOk → 16 ≤ lim.maxAck ∨ ∀ i, plan i = 0) :
-    ∀ (pr : Prog), ∀ e ∈ (runEvents plan ms steps pr).1, EvWithin lim ackOk e := by
+    ∀ (pr : Prog), ∀ e ∈ (runEvents plan ms t steps pr).1, EvWithin lim ackOk e := by
   induction steps with
   | nil => intro pr e he; simp [runEvents] at he
   | cons st rest ih =>
@@ -185,12 +189,12 @@ theorem within_runEvents (lim : Limits) (ackOk : Prop) (plan : Nat → Nat) (ms 
     rcases he with he | he
     · have h16 := maximumAckLen_ge st.cmd
       have hf := hfin st (List.mem_cons_self ..) pr.id
-      simp only [txnEvents, List.mem_cons] at he
+      simp only [txnEvents, staleEvents_nil, List.nil_append, List.mem_cons] at he
       rcases he with rfl | he
       · exact ⟨hcmd st (List.mem_cons_self ..) pr.id, rfl⟩
       · -- receive events
         have aux : ∀ k, (ackOk → 16 ≤ lim.maxAck ∨ k = 0) →
-            ∀ e ∈ recvEvents (max pr.bufLen (max st.cmd.cmdLen st.cmd.maximumAckLen)) pr.id ms
+            ∀ e ∈ recvEvents (max pr.bufLen (max st.cmd.cmdLen st.cmd.maximumAckLen)) t pr.id ms
               (st.final pr.id) k, EvWithin lim ackOk e := by
           intro k
           induction k with
@@ -263,45 +267,48 @@ theorem readChunkList_partition (m address : Nat) (hm : 0 < m) :
 
 theorem readLoop_conforming (hc : Conforming dev view lim plan ms) (p : Profile) (m address : Nat)
     (hm : 0 < m) (hm16 : m < 2 ^ 16) (hmack : 12 + m ≤ lim.maxAck) (hcmd : 24 ≤ lim.maxCmd)
-    (hms : ms < 2 ^ 16) (retry : Nat) (hplan : ∀ i, plan i < retry) :
+    (hms : ms < 2 ^ 16) (retry : Nat) (hplan : ∀ i, plan i < retry) (t mc : Nat)
+    (hmc : 24 ≤ mc) :
     ∀ (fuel offset rem : Nat) (s : St σ) (accRev : Bytes), rem < fuel →
       address + offset + rem ≤ 2 ^ 64 → offset + rem < 2 ^ 64 → s.h.nextReqId < 2 ^ 16 →
-      s.h.cfg.retry = retry →
+      s.h.cfg.retry = retry → s.h.cfg.maxCmd = mc → s.h.cfg.timeoutMs = t →
+      (view s.d).queue = [] →
       ∃ s', readLoop dev p m address fuel offset rem s accRev =
           (s', .ok (accRev.reverse ++ readRange (view s.d).mem (address + offset) rem)) ∧
-        (view s'.d).mem = (view s.d).mem ∧ (view s'.d).queue = (if rem = 0 then (view s.d).queue else []) ∧
+        (view s'.d).mem = (view s.d).mem ∧ (view s'.d).queue = [] ∧
         s'.h.cfg = s.h.cfg ∧ s'.h.opened = s.h.opened ∧ s'.h.abrm = s.h.abrm ∧
-        s'.logRev = (runEvents plan ms
+        s'.logRev = (runEvents plan ms t
             ((readChunkList m address fuel offset rem).map (readStep (view s.d).mem))
             ⟨s.h.nextReqId, s.h.bufLen, (view s.d).txn⟩).1.reverse ++ s.logRev ∧
-        (⟨s'.h.nextReqId, s'.h.bufLen, (view s'.d).txn⟩ : Prog) = (runEvents plan ms
+        (⟨s'.h.nextReqId, s'.h.bufLen, (view s'.d).txn⟩ : Prog) = (runEvents plan ms t
             ((readChunkList m address fuel offset rem).map (readStep (view s.d).mem))
             ⟨s.h.nextReqId, s.h.bufLen, (view s.d).txn⟩).2 := by
   intro fuel
   induction fuel with
   | zero => intro offset rem s accRev h; omega
   | succ f ih =>
-    intro offset rem s accRev hf hsp hn64 hid hretry
+    intro offset rem s accRev hf hsp hn64 hid hretry hmaxc htmo hq
     by_cases h0 : rem = 0
     · subst h0
-      refine ⟨s, by simp [readLoop, readRange], rfl, by simp, rfl, rfl, rfl, ?_, ?_⟩
+      refine ⟨s, by simp [readLoop, readRange], rfl, hq, rfl, rfl, rfl, ?_, ?_⟩
       · simp [readChunkList, runEvents]
       · simp [readChunkList, runEvents]
     · have hlen16 : min m rem < 2 ^ 16 := by omega
       have hadd : (addW p 64 address offset : R Nat) = .ok (address + offset) := by
         simp only [addW]; rw [if_pos (by omega)]
       obtain ⟨s1, hs1, hh1, hm1, hq1, ht1, hl1⟩ :=
-        sendCmd_read hc p s (address + offset) (min m rem) (by omega) hlen16 hid hms hcmd
-          (by omega) (by omega) (by rw [hretry]; exact hplan _)
+        sendCmd_read hc p s (address + offset) (min m rem) [] (by omega) hlen16 hid hms
+          (by omega) hcmd (by omega) (by omega) hq (fun _ h => by simp at h)
+          (by rw [hretry]; simpa using hplan _)
       have hadd2 : (addW p 64 offset (min m rem) : R Nat) = .ok (offset + min m rem) := by
         simp only [addW]; rw [if_pos (by omega)]
       obtain ⟨s', hs', hm', hq', hcfg', hop', hab', hl', hpr'⟩ :=
         ih (offset + min m rem) (rem - min m rem) s1
           ((readRange (view s.d).mem (address + offset) (min m rem)).reverse ++ accRev)
           (by omega) (by omega) (by omega) (by rw [hh1]; exact Nat.mod_lt _ (by omega))
-          (by rw [hh1]; exact hretry)
+          (by rw [hh1]; exact hretry) (by rw [hh1]; exact hmaxc) (by rw [hh1]; exact htmo) hq1
       have hgt : ¬ min m rem > U16_MAX := by simp only [U16_MAX]; omega
-      refine ⟨s', ?_, by rw [hm', hm1], ?_, by rw [hcfg', hh1], by rw [hop', hh1],
+      refine ⟨s', ?_, by rw [hm', hm1], hq', by rw [hcfg', hh1], by rw [hop', hh1],
         by rw [hab', hh1], ?_, ?_⟩
       · rw [readLoop]
         simp only [if_neg h0, if_neg hgt, hadd, hs1, readRange_length, ne_eq, not_true_eq_false,
@@ -315,12 +322,8 @@ theorem readLoop_conforming (hc : Conforming dev view lim plan ms) (p : Profile)
           rw [Nat.add_assoc]
         rw [hsplit]
         simp only [List.reverse_append, List.reverse_reverse, List.append_assoc]
-      · rw [hq', if_neg h0]
-        split
-        · exact hq1
-        · rfl
       · rw [hl', hl1, hm1]
-        simp only [hh1, ht1]
+        simp only [hh1, ht1, htmo]
         simp only [readChunkList, if_neg h0, List.map_cons, runEvents, readStep,
           Cmd.Cmd.cmdLen, Cmd.Cmd.scdLen, Cmd.CCD_LEN, Cmd.Cmd.maximumAckLen, Cmd.Cmd.ackScdLen,
           Cmd.ACK_HEADER_LENGTH, Cmd.MINIMUM_ACK_SCD_LENGTH, Nat.reduceAdd,
@@ -419,23 +422,25 @@ def ChunkOk (lim : Limits) (c : Cmd.WriteMem) : Prop :=
   C09.WriteMem.Built c ∧ 20 + c.data.length ≤ lim.maxCmd ∧ c.address + c.data.length ≤ 2 ^ 64
 
 theorem writeChunkLoop_conforming (hc : Conforming dev view lim plan ms) (p : Profile)
-    (hack : 16 ≤ lim.maxAck) (hms : ms < 2 ^ 16) (retry : Nat) (hplan : ∀ i, plan i < retry) :
+    (hack : 16 ≤ lim.maxAck) (hms : ms < 2 ^ 16) (retry : Nat) (hplan : ∀ i, plan i < retry)
+    (t : Nat) :
     ∀ (fuel : Nat) (it : Cmd.WriteMemChunks) (s : St σ) (cs : List Cmd.WriteMem),
       it.collect p fuel = .ok cs → (∀ c ∈ cs, ChunkOk lim c) → s.h.nextReqId < 2 ^ 16 →
-      s.h.cfg.retry = retry →
+      s.h.cfg.retry = retry → s.h.cfg.maxCmd = lim.maxCmd → s.h.cfg.timeoutMs = t →
+      (view s.d).queue = [] →
       ∃ s', writeChunkLoop dev p fuel it s = (s', .ok ()) ∧
-        (view s'.d).mem = applyWrites (view s.d).mem cs ∧
+        (view s'.d).mem = applyWrites (view s.d).mem cs ∧ (view s'.d).queue = [] ∧
         s'.h.cfg = s.h.cfg ∧ s'.h.opened = s.h.opened ∧ s'.h.abrm = s.h.abrm ∧
         s'.h.nextReqId < 2 ^ 16 ∧
-        s'.logRev = (runEvents plan ms (cs.map writeStep)
+        s'.logRev = (runEvents plan ms t (cs.map writeStep)
             ⟨s.h.nextReqId, s.h.bufLen, (view s.d).txn⟩).1.reverse ++ s.logRev ∧
-        (⟨s'.h.nextReqId, s'.h.bufLen, (view s'.d).txn⟩ : Prog) = (runEvents plan ms
+        (⟨s'.h.nextReqId, s'.h.bufLen, (view s'.d).txn⟩ : Prog) = (runEvents plan ms t
             (cs.map writeStep) ⟨s.h.nextReqId, s.h.bufLen, (view s.d).txn⟩).2 := by
   intro fuel
   induction fuel with
   | zero => intro it s cs h; simp [Cmd.WriteMemChunks.collect] at h
   | succ f ih =>
-    intro it s cs hcol hok hid hretry
+    intro it s cs hcol hok hid hretry hmaxc htmo hq
     rw [Cmd.WriteMemChunks.collect] at hcol
     rcases hnext : it.next p with ⟨item, it'⟩ | e | _
     · rw [hnext] at hcol
@@ -444,7 +449,7 @@ theorem writeChunkLoop_conforming (hc : Conforming dev view lim plan ms) (p : Pr
       | none =>
         simp only [Res.pure_eq, Res.ok.injEq] at hcol
         subst hcol
-        refine ⟨s, ?_, rfl, rfl, rfl, rfl, hid, ?_, ?_⟩
+        refine ⟨s, ?_, rfl, hq, rfl, rfl, rfl, hid, ?_, ?_⟩
         · rw [writeChunkLoop]; simp only [hnext]
         · simp [runEvents]
         · simp [runEvents]
@@ -455,19 +460,21 @@ theorem writeChunkLoop_conforming (hc : Conforming dev view lim plan ms) (p : Pr
           simp only [Res.bind_ok, Res.pure_eq, Res.ok.injEq] at hcol
           subst hcol
           obtain ⟨hb, hcmd, hsp⟩ := hok c (List.mem_cons_self ..)
-          obtain ⟨s1, hs1, hh1, hm1, _, ht1, hl1⟩ :=
-            sendCmd_write hc p s c hb hid hms hcmd hack hsp (by rw [hretry]; exact hplan _)
-          obtain ⟨s', hs', hm', hcfg', hop', hab', hid', hl', hpr'⟩ :=
+          obtain ⟨s1, hs1, hh1, hm1, hq1, ht1, hl1⟩ :=
+            sendCmd_write hc p s c [] hb hid hms (by rw [hmaxc]; exact hcmd) hcmd hack hsp hq
+              (fun _ h => by simp at h) (by rw [hretry]; simpa using hplan _)
+          obtain ⟨s', hs', hm', hq', hcfg', hop', hab', hid', hl', hpr'⟩ :=
             ih it' s1 rest hrest (fun x hx => hok x (List.mem_cons_of_mem _ hx))
               (by rw [hh1]; exact Nat.mod_lt _ (by omega)) (by rw [hh1]; exact hretry)
-          refine ⟨s', ?_, ?_, by rw [hcfg', hh1], by rw [hop', hh1], by rw [hab', hh1], hid',
+              (by rw [hh1]; exact hmaxc) (by rw [hh1]; exact htmo) hq1
+          refine ⟨s', ?_, ?_, hq', by rw [hcfg', hh1], by rw [hop', hh1], by rw [hab', hh1], hid',
             ?_, ?_⟩
           · rw [writeChunkLoop]
             simp only [hnext, hs1, ne_eq, not_true_eq_false, if_false]
             exact hs'
           · rw [hm', hm1]; rfl
           · rw [hl', hl1]
-            simp only [hh1, ht1]
+            simp only [hh1, ht1, htmo]
             have hcl := built_cmdLen hb
             have hma := writeMem_maximumAckLen c
             simp only [List.map_cons, runEvents, writeStep, hcl, hma, List.reverse_append,
@@ -564,27 +571,29 @@ theorem writeChunkList_spec (p : Profile) (lim : Limits) (address : Nat) (hb : 2
 
 theorem writeBlockLoop_conforming (hc : Conforming dev view lim plan ms) (p : Profile)
     (address : Nat) (hb : 20 < lim.maxCmd) (hbu : lim.maxCmd < 2 ^ 63) (hack : 16 ≤ lim.maxAck)
-    (hms : ms < 2 ^ 16) (retry : Nat) (hplan : ∀ i, plan i < retry) :
+    (hms : ms < 2 ^ 16) (retry : Nat) (hplan : ∀ i, plan i < retry) (t : Nat) :
     ∀ (fuel offset : Nat) (rest : Bytes) (s : St σ), rest.length < fuel →
       address + offset + rest.length ≤ 2 ^ 64 → offset + rest.length < 2 ^ 64 →
-      s.h.nextReqId < 2 ^ 16 → s.h.cfg.retry = retry →
+      s.h.nextReqId < 2 ^ 16 → s.h.cfg.retry = retry → s.h.cfg.maxCmd = lim.maxCmd →
+      s.h.cfg.timeoutMs = t → (view s.d).queue = [] →
       ∃ s', writeBlockLoop dev p address lim.maxCmd fuel offset rest s = (s', .ok ()) ∧
         (view s'.d).mem = writeRange (view s.d).mem (address + offset) rest ∧
+        (view s'.d).queue = [] ∧
         s'.h.cfg = s.h.cfg ∧ s'.h.opened = s.h.opened ∧ s'.h.abrm = s.h.abrm ∧
-        s'.logRev = (runEvents plan ms
+        s'.logRev = (runEvents plan ms t
             ((writeChunkList p address lim.maxCmd fuel offset rest).map writeStep)
             ⟨s.h.nextReqId, s.h.bufLen, (view s.d).txn⟩).1.reverse ++ s.logRev ∧
-        (⟨s'.h.nextReqId, s'.h.bufLen, (view s'.d).txn⟩ : Prog) = (runEvents plan ms
+        (⟨s'.h.nextReqId, s'.h.bufLen, (view s'.d).txn⟩ : Prog) = (runEvents plan ms t
             ((writeChunkList p address lim.maxCmd fuel offset rest).map writeStep)
             ⟨s.h.nextReqId, s.h.bufLen, (view s.d).txn⟩).2 := by
   intro fuel
   induction fuel with
   | zero => intro offset rest s h; omega
   | succ f ih =>
-    intro offset rest s hf hsp hn64 hid hretry
+    intro offset rest s hf hsp hn64 hid hretry hmaxc htmo hq
     by_cases h0 : rest = []
     · subst h0
-      refine ⟨s, ?_, by simp [writeRange], rfl, rfl, rfl, ?_, ?_⟩
+      refine ⟨s, ?_, by simp [writeRange], hq, rfl, rfl, rfl, ?_, ?_⟩
       · rw [writeBlockLoop]; simp
       · simp [writeChunkList, runEvents]
       · simp [writeChunkList, runEvents]
@@ -615,14 +624,17 @@ theorem writeBlockLoop_conforming (hc : Conforming dev view lim plan ms) (p : Pr
           have hok : ∀ c ∈ cs, ChunkOk lim c := fun c hc' =>
             chunkOk_of_facts lim c _ _ _ (partition_facts hpart c hc')
               (by simp only [Cmd.HEADER_LEN, Cmd.CCD_LEN]; omega) (by omega) (by omega)
-          obtain ⟨s1, hs1, hm1, hcfg1, hop1, hab1, hid1, hl1, hpr1⟩ :=
-            writeChunkLoop_conforming hc p hack hms retry hplan _ it s cs hcs' hok hid hretry
-          obtain ⟨s', hs', hm', hcfg', hop', hab', hl', hpr'⟩ :=
+          obtain ⟨s1, hs1, hm1, hq1, hcfg1, hop1, hab1, hid1, hl1, hpr1⟩ :=
+            writeChunkLoop_conforming hc p hack hms retry hplan t _ it s cs hcs' hok hid hretry
+              hmaxc htmo hq
+          obtain ⟨s', hs', hm', hq', hcfg', hop', hab', hl', hpr'⟩ :=
             ih (offset + (rest.take MAX_WRITE_BLOCK).length) (rest.drop MAX_WRITE_BLOCK) s1
               (by omega) (by omega) (by omega) hid1
-              (by rw [hcfg1]; exact hretry)
+              (by rw [hcfg1]; exact hretry) (by rw [hcfg1]; exact hmaxc)
+              (by rw [hcfg1]; exact htmo) hq1
           have hpr1' := hpr1
-          refine ⟨s', ?_, ?_, by rw [hcfg', hcfg1], by rw [hop', hop1], by rw [hab', hab1], ?_, ?_⟩
+          refine ⟨s', ?_, ?_, hq', by rw [hcfg', hcfg1], by rw [hop', hop1], by rw [hab', hab1],
+            ?_, ?_⟩
           · rw [writeBlockLoop]
             simp only [if_neg h0, hadd, hnew, hch, hs1, hadd2]
             exact hs'
@@ -641,6 +653,192 @@ theorem writeBlockLoop_conforming (hc : Conforming dev view lim plan ms) (p : Pr
         · rw [hch] at hcs'; simp at hcs'
       · rw [hnew] at hcs'; simp at hcs'
       · rw [hnew] at hcs'; simp at hcs'
+
+/-! ### the same operations when the device still has stale acknowledges queued
+
+Only the first transaction meets them (it fetches and discards them, one retry each);
+afterwards the queue is empty and the lemmas above apply.  Results only (no log shape). -/
+
+theorem readLoop_conforming_stale (hc : Conforming dev view lim plan ms) (p : Profile)
+    (m address : Nat) (hm : 0 < m) (hm16 : m < 2 ^ 16) (hmack : 12 + m ≤ lim.maxAck)
+    (hcmd : 24 ≤ lim.maxCmd) (hms : ms < 2 ^ 16) (retry : Nat) (stale : List Bytes)
+    (hplan : ∀ i, stale.length + plan i < retry) (mc : Nat) (hmc : 24 ≤ mc)
+    (fuel offset rem : Nat) (s : St σ) (accRev : Bytes) (hf : rem < fuel)
+    (hsp : address + offset + rem ≤ 2 ^ 64) (hn64 : offset + rem < 2 ^ 64)
+    (hid : s.h.nextReqId < 2 ^ 16) (hretry : s.h.cfg.retry = retry) (hmaxc : s.h.cfg.maxCmd = mc)
+    (hq : (view s.d).queue = stale) (hstale : StaleOk p s.h.nextReqId s.h.bufLen stale) :
+    ∃ s', readLoop dev p m address fuel offset rem s accRev =
+        (s', .ok (accRev.reverse ++ readRange (view s.d).mem (address + offset) rem)) ∧
+      (view s'.d).mem = (view s.d).mem ∧
+      (view s'.d).queue = (if rem = 0 then stale else []) ∧
+      s'.h.cfg = s.h.cfg ∧ s'.h.opened = s.h.opened ∧ s'.h.nextReqId < 2 ^ 16 := by
+  obtain ⟨f, rfl⟩ : ∃ f, fuel = f + 1 := ⟨fuel - 1, by omega⟩
+  by_cases h0 : rem = 0
+  · subst h0
+    exact ⟨s, by simp [readLoop, readRange], rfl, by simpa using hq, rfl, rfl, hid⟩
+  · have hlen16 : min m rem < 2 ^ 16 := by omega
+    have hadd : (addW p 64 address offset : R Nat) = .ok (address + offset) := by
+      simp only [addW]; rw [if_pos (by omega)]
+    obtain ⟨s1, hs1, hh1, hm1, hq1, ht1, _⟩ :=
+      sendCmd_read hc p s (address + offset) (min m rem) stale (by omega) hlen16 hid hms
+        (by omega) hcmd (by omega) (by omega) hq hstale (by rw [hretry]; exact hplan _)
+    have hadd2 : (addW p 64 offset (min m rem) : R Nat) = .ok (offset + min m rem) := by
+      simp only [addW]; rw [if_pos (by omega)]
+    obtain ⟨s', hs', hm', hq', hcfg', hop', _, _, hpr'⟩ :=
+      readLoop_conforming hc p m address hm hm16 hmack hcmd hms retry
+        (fun i => by have := hplan i; omega) s.h.cfg.timeoutMs mc hmc f
+        (offset + min m rem) (rem - min m rem) s1
+        ((readRange (view s.d).mem (address + offset) (min m rem)).reverse ++ accRev)
+        (by omega) (by omega) (by omega) (by rw [hh1]; exact Nat.mod_lt _ (by omega))
+        (by rw [hh1]; exact hretry) (by rw [hh1]; exact hmaxc) (by rw [hh1]) hq1
+    have hgt : ¬ min m rem > U16_MAX := by simp only [U16_MAX]; omega
+    refine ⟨s', ?_, by rw [hm', hm1], by rw [hq', if_neg h0], by rw [hcfg', hh1],
+      by rw [hop', hh1], ?_⟩
+    · rw [readLoop]
+      simp only [if_neg h0, if_neg hgt, hadd, hs1, readRange_length, ne_eq, not_true_eq_false,
+        if_false, hadd2]
+      rw [hs', hm1]
+      have hsplit : readRange (view s.d).mem (address + offset) rem =
+          readRange (view s.d).mem (address + offset) (min m rem) ++
+            readRange (view s.d).mem (address + (offset + min m rem)) (rem - min m rem) := by
+        have : rem = min m rem + (rem - min m rem) := by omega
+        conv => lhs; rw [this, readRange_add]
+        rw [Nat.add_assoc]
+      rw [hsplit]
+      simp only [List.reverse_append, List.reverse_reverse, List.append_assoc]
+    · have h := congrArg Prog.id hpr'
+      simp only at h
+      rw [h]
+      rcases runEvents_final plan ms s.h.cfg.timeoutMs
+        ((readChunkList m address f (offset + min m rem) (rem - min m rem)).map
+          (readStep (view s1.d).mem)) ⟨s1.h.nextReqId, s1.h.bufLen, (view s1.d).txn⟩ with h2 | h2
+      · rw [h2]; exact Nat.mod_lt _ (by omega)
+      · rw [h2]; simp only [runEvents, hh1]; exact Nat.mod_lt _ (by omega)
+
+theorem writeChunkLoop_conforming_stale (hc : Conforming dev view lim plan ms) (p : Profile)
+    (hack : 16 ≤ lim.maxAck) (hms : ms < 2 ^ 16) (retry : Nat) (stale : List Bytes)
+    (hplan : ∀ i, stale.length + plan i < retry)
+    (fuel : Nat) (it : Cmd.WriteMemChunks) (s : St σ) (cs : List Cmd.WriteMem)
+    (hcol : it.collect p fuel = .ok cs) (hok : ∀ c ∈ cs, ChunkOk lim c)
+    (hid : s.h.nextReqId < 2 ^ 16) (hretry : s.h.cfg.retry = retry)
+    (hmaxc : s.h.cfg.maxCmd = lim.maxCmd) (hq : (view s.d).queue = stale)
+    (hstale : StaleOk p s.h.nextReqId s.h.bufLen stale) :
+    ∃ s', writeChunkLoop dev p fuel it s = (s', .ok ()) ∧
+      (view s'.d).mem = applyWrites (view s.d).mem cs ∧
+      (view s'.d).queue = (if cs = [] then stale else []) ∧
+      s'.h.cfg = s.h.cfg ∧ s'.h.opened = s.h.opened ∧ s'.h.nextReqId < 2 ^ 16 := by
+  obtain ⟨f, rfl⟩ : ∃ f, fuel = f + 1 := ⟨fuel - 1, by
+    cases fuel with
+    | zero => simp [Cmd.WriteMemChunks.collect] at hcol
+    | succ n => omega⟩
+  rw [Cmd.WriteMemChunks.collect] at hcol
+  rcases hnext : it.next p with ⟨item, it'⟩ | e | _
+  · rw [hnext] at hcol
+    simp only [Res.bind_ok] at hcol
+    cases item with
+    | none =>
+      simp only [Res.pure_eq, Res.ok.injEq] at hcol
+      subst hcol
+      refine ⟨s, ?_, rfl, by simpa using hq, rfl, rfl, hid⟩
+      rw [writeChunkLoop]; simp only [hnext]
+    | some c =>
+      simp only at hcol
+      rcases hrest : Cmd.WriteMemChunks.collect p f it' with rest | e | _
+      · rw [hrest] at hcol
+        simp only [Res.bind_ok, Res.pure_eq, Res.ok.injEq] at hcol
+        subst hcol
+        obtain ⟨hb, hcmd, hsp⟩ := hok c (List.mem_cons_self ..)
+        obtain ⟨s1, hs1, hh1, hm1, hq1, ht1, _⟩ :=
+          sendCmd_write hc p s c stale hb hid hms (by rw [hmaxc]; exact hcmd) hcmd hack hsp hq
+            hstale (by rw [hretry]; exact hplan _)
+        obtain ⟨s', hs', hm', hq', hcfg', hop', _, hid', _, hpr'⟩ :=
+          writeChunkLoop_conforming hc p hack hms retry (fun i => by have := hplan i; omega)
+            s.h.cfg.timeoutMs f it' s1 rest hrest (fun x hx => hok x (List.mem_cons_of_mem _ hx))
+            (by rw [hh1]; exact Nat.mod_lt _ (by omega)) (by rw [hh1]; exact hretry)
+            (by rw [hh1]; exact hmaxc) (by rw [hh1]) hq1
+        refine ⟨s', ?_, by rw [hm', hm1]; rfl, by simpa using hq', by rw [hcfg', hh1],
+          by rw [hop', hh1], hid'⟩
+        rw [writeChunkLoop]
+        simp only [hnext, hs1, ne_eq, not_true_eq_false, if_false]
+        exact hs'
+      · rw [hrest] at hcol; simp at hcol
+      · rw [hrest] at hcol; simp at hcol
+  · rw [hnext] at hcol; simp at hcol
+  · rw [hnext] at hcol; simp at hcol
+
+theorem writeBlockLoop_conforming_stale (hc : Conforming dev view lim plan ms) (p : Profile)
+    (address : Nat) (hb : 20 < lim.maxCmd) (hbu : lim.maxCmd < 2 ^ 63) (hack : 16 ≤ lim.maxAck)
+    (hms : ms < 2 ^ 16) (retry : Nat) (stale : List Bytes)
+    (hplan : ∀ i, stale.length + plan i < retry)
+    (fuel offset : Nat) (rest : Bytes) (s : St σ) (hf : rest.length < fuel)
+    (hsp : address + offset + rest.length ≤ 2 ^ 64) (hn64 : offset + rest.length < 2 ^ 64)
+    (hid : s.h.nextReqId < 2 ^ 16) (hretry : s.h.cfg.retry = retry)
+    (hmaxc : s.h.cfg.maxCmd = lim.maxCmd) (hq : (view s.d).queue = stale)
+    (hstale : StaleOk p s.h.nextReqId s.h.bufLen stale) :
+    ∃ s', writeBlockLoop dev p address lim.maxCmd fuel offset rest s = (s', .ok ()) ∧
+      (view s'.d).mem = writeRange (view s.d).mem (address + offset) rest ∧
+      (view s'.d).queue = (if rest = [] then stale else []) ∧
+      s'.h.cfg = s.h.cfg ∧ s'.h.opened = s.h.opened := by
+  obtain ⟨f, rfl⟩ : ∃ f, fuel = f + 1 := ⟨fuel - 1, by omega⟩
+  by_cases h0 : rest = []
+  · subst h0
+    refine ⟨s, ?_, by simp [writeRange], by simpa using hq, rfl, rfl⟩
+    rw [writeBlockLoop]; simp
+  · have hmwb : MAX_WRITE_BLOCK = 65527 := rfl
+    have htl : (rest.take MAX_WRITE_BLOCK).length = min MAX_WRITE_BLOCK rest.length :=
+      List.length_take
+    have hdl : (rest.drop MAX_WRITE_BLOCK).length = rest.length - MAX_WRITE_BLOCK :=
+      List.length_drop
+    have hpos : 0 < rest.length := List.length_pos_iff.mpr h0
+    have hadd : (addW p 64 address offset : R Nat) = .ok (address + offset) := by
+      simp only [addW]; rw [if_pos (by omega)]
+    have hadd2 : (addW p 64 offset (rest.take MAX_WRITE_BLOCK).length : R Nat) =
+        .ok (offset + (rest.take MAX_WRITE_BLOCK).length) := by
+      simp only [addW]; rw [if_pos (by omega)]
+    obtain ⟨cs, hcs, hpart⟩ := C10.write_partition p (address + offset)
+      (rest.take MAX_WRITE_BLOCK) lim.maxCmd
+      (by simp only [Cmd.HEADER_LEN, Cmd.CCD_LEN]; omega) hbu
+      (by simp only [U16_MAX]; omega) (by omega)
+    have hcsne : cs ≠ [] := by
+      intro h
+      subst h
+      simp only [C10.WritePartition] at hpart
+      have := congrArg List.length hpart
+      simp only [List.length_nil] at this
+      omega
+    have hcs' := hcs
+    simp only [Cmd.writeChunks] at hcs'
+    rcases hnew : Cmd.WriteMem.new (address + offset) (rest.take MAX_WRITE_BLOCK) with w | e | _
+    · rw [hnew] at hcs'
+      simp only [Res.bind_ok] at hcs'
+      rcases hch : w.chunks lim.maxCmd with it | e | _
+      · rw [hch] at hcs'
+        simp only [Res.bind_ok] at hcs'
+        have hok : ∀ c ∈ cs, ChunkOk lim c := fun c hc' =>
+          chunkOk_of_facts lim c _ _ _ (partition_facts hpart c hc')
+            (by simp only [Cmd.HEADER_LEN, Cmd.CCD_LEN]; omega) (by omega) (by omega)
+        obtain ⟨s1, hs1, hm1, hq1, hcfg1, hop1, hid1⟩ :=
+          writeChunkLoop_conforming_stale hc p hack hms retry stale hplan _ it s cs hcs' hok hid
+            hretry hmaxc hq hstale
+        rw [if_neg hcsne] at hq1
+        obtain ⟨s', hs', hm', hq', hcfg', hop', _⟩ :=
+          writeBlockLoop_conforming hc p address hb hbu hack hms retry
+            (fun i => by have := hplan i; omega) s.h.cfg.timeoutMs f
+            (offset + (rest.take MAX_WRITE_BLOCK).length) (rest.drop MAX_WRITE_BLOCK) s1
+            (by omega) (by omega) (by omega) hid1
+            (by rw [hcfg1]; exact hretry) (by rw [hcfg1]; exact hmaxc) (by rw [hcfg1]) hq1
+        refine ⟨s', ?_, ?_, by rw [hq', if_neg h0], by rw [hcfg', hcfg1], by rw [hop', hop1]⟩
+        · rw [writeBlockLoop]
+          simp only [if_neg h0, hadd, hnew, hch, hs1, hadd2]
+          exact hs'
+        · rw [hm', hm1, applyWrites_contig _ (Contig.of_partition hpart)]
+          have : address + (offset + (rest.take MAX_WRITE_BLOCK).length) =
+              address + offset + (rest.take MAX_WRITE_BLOCK).length := by omega
+          rw [this, ← writeRange_append, List.take_append_drop]
+      · rw [hch] at hcs'; simp at hcs'
+      · rw [hch] at hcs'; simp at hcs'
+    · rw [hnew] at hcs'; simp at hcs'
+    · rw [hnew] at hcs'; simp at hcs'
 
 end Ops
 
